@@ -83,6 +83,7 @@ class Source:
         self.data = data
         self.cur = 0
         self.cap = None
+        self.calls = 0          # calls made during the current wrapper operation
 
     def take(self, n):
         left = len(self.data) - self.cur
@@ -91,7 +92,9 @@ class Source:
         else:
             k = min(n, left)
             if self.cap is not None:
-                k = min(k, self.cap)
+                # the limit varies from call to call within one operation (cap, cap/2, cap, ...), never below 1
+                k = min(k, self.cap if self.calls % 2 == 0 else max(1, self.cap // 2))
+        self.calls += 1
         r = self.data[self.cur:self.cur + k]
         self.cur += k
         return r
@@ -209,6 +212,7 @@ def do_op(kind, w, buf, src, op, digit):
         return ("bool", bool(w.seek(p, org)))
     if t == "read":
         src.cap = op[2]
+        src.calls = 0
         return ("data", bytes(w.read(op[1])))
     raise ValueError(op)
 
@@ -287,6 +291,13 @@ def do_probe(kind, w, buf, src, script, raises, emit):
         def readable(self):
             return True
 
+    Tiny = scripted_tinytag(script, raises)
+    emit(("pbegin", buf.position))
+    empty = probe_with(Recorder(), Tiny)
+    emit(("pend", empty))
+
+
+def scripted_tinytag(script, raises):
     class Tiny:
         @staticmethod
         def get(filename=None, file_obj=None, **kw):
@@ -298,22 +309,28 @@ def do_probe(kind, w, buf, src, script, raises, emit):
             if raises:
                 raise ValueError("no tag found")
             return FakeTag()
+    return Tiny
 
+
+def probe_with(file_obj, Tiny):
+    """Run the real get_buffered_io_metadata on file_obj with TinyTag replaced; True when it returned EMPTY_METADATA."""
+    import asyncio as real_asyncio
+    import pyatv.support.metadata as M
+    A = audio_source()
     if _PROBE["loop"] is None:
         _PROBE["loop"] = real_asyncio.new_event_loop()
     loop = _PROBE["loop"]
-    emit(("pbegin", buf.position))
     old_tiny, M.TinyTag = M.TinyTag, Tiny
     old_log = (A.logging.exception, A.logging.warning)
     A.logging.exception = A.logging.warning = lambda *a, **k: None
     real_asyncio.set_event_loop(loop)
     try:
-        md = loop.run_until_complete(A.get_buffered_io_metadata(Recorder()))
+        md = loop.run_until_complete(A.get_buffered_io_metadata(file_obj))
     finally:
         real_asyncio.set_event_loop(None)
         M.TinyTag = old_tiny
         A.logging.exception, A.logging.warning = old_log
-    emit(("pend", md.title is None))
+    return md.title is None
 
 
 def run_impl(case):
@@ -949,6 +966,23 @@ def run_ice2(case):
                     record(op, ("none",))
                 except InvalidStateError:
                     record(op, ("raise",))
+            elif op[0] == "probe":
+                # InternetSource.open: get_buffered_io_metadata(StreamableSourceWrapper(client, buffer))
+                class Client:
+                    def read(self, n):
+                        k = n if cli._stop_stream else min(n, len(buf))
+                        d = bytes(cli.read(k))
+                        record(("read", k, None), ("data", d))
+                        return d
+
+                    def seek(self, off, origin):
+                        r = bool(cli.seek(off, origin))
+                        record(("seek", off, True), ("bool", r))
+                        return r
+                record(("pbegin", buf.position), ("none",))
+                empty = probe_with(A.StreamableSourceWrapper(Client(), buf, name=cli.url),
+                                   scripted_tinytag([tuple(x) for x in op[1]], op[2]))
+                record(("pend", empty), ("none",))
         finally:
             st["consumer"] = False
 
@@ -1081,6 +1115,7 @@ def oracle_ice2(case, ops, obs):
     c = 0
     pending_seek = None
     taint = None
+    probe = None
     short_seen = False
 
     def fail(key, msg, i):
@@ -1090,11 +1125,25 @@ def oracle_ice2(case, ops, obs):
 
     for i, (op, ob) in enumerate(zip(ops, obs)):
         t = op[0]
+        if probe is not None:
+            probe["maxpos"] = max(probe["maxpos"], ob["pos"])
         short_seen = ob["short"]
         if case["meta"] and short_seen and taint is None:
             taint = (OVERREAD_KEY, "op %d: a raw.read() in ICY mode returned fewer bytes than asked for; _readall asks for "
                      "the full size again, returns more than it was asked for and the framing is lost" % i)
-        if t == "seek":
+        if t == "pbegin":
+            probe = {"before": c, "rewound": None, "i": i, "prot": ob["prot"], "maxpos": ob["pos"]}
+        elif t == "pend":
+            if probe is not None and (probe["prot"] or probe["maxpos"] < case["head"]) and c not in (probe["before"], 0):
+                return fail("C17:icecast:probe-moved-position", "metadata probe started at offset %d and left the stream at "
+                            "offset %d" % (probe["before"], c), i)
+            if probe is not None and probe["rewound"] is False and not op[1]:
+                return fail("C17:icecast:probe-without-rewind", "metadata returned although the stream could not be "
+                            "rewound", i)
+            probe = None
+        elif t == "seek":
+            if probe is not None and probe["rewound"] is None:
+                probe["rewound"] = bool(ob["res"][1]) and op[1] == 0
             if ob["res"][1]:
                 if op[1] != c or pending_seek is not None:
                     pending_seek = i
@@ -1104,6 +1153,9 @@ def oracle_ice2(case, ops, obs):
             total = sum(l for _, l in runs)
             if total > op[1]:
                 return fail("C17:icecast:over-read", "read(%d) returned %d bytes" % (op[1], total), i)
+            if total and probe is not None and probe["rewound"] is False:
+                return fail("C17:icecast:probe-consumes-without-rewind", "the stream could not be rewound but the metadata "
+                            "probe consumed %d bytes at offset %d" % (total, c), i)
             if total:
                 if any(o >= 1000 for (o, l) in runs):
                     if case["meta"] and short_seen and taint is None:
@@ -1166,6 +1218,8 @@ def c_iop2(op):
 
 
 def coq_ice2_case(case, ops, obs):
+    keep = [j for j, o in enumerate(ops) if o[0] not in ("pbegin", "pend")]
+    ops, obs = [ops[j] for j in keep], [obs[j] for j in keep]
     return "(%s, %s, %s, %s, %s,\n  %s,\n  [%s],\n  [%s],\n  [%s])" % (
         cnum(case["block"]), cnum(case["meta"]), cnum(case["size"]), cnum(case["head"]), common.cbool(case["prot"]),
         c_data(rle(ice2_body(case))), "; ".join(c_optN(x) for x in case["caps"]),
@@ -1191,6 +1245,9 @@ def gen_ice2_case(rng, size, head, block, meta, exact):
             ops.append(("seek", rng.choice([0, 0, 1, head - 1, head, rng.randint(0, size)])))
         else:
             ops.append(("prot", rng.random() < 0.3))
+        if rng.random() < 0.15:
+            sc = [x for x in gen_probe(rng, size, head, audio)[1] if x[1] >= 0]
+            ops.append(("probe", sc, rng.random() < 0.25))
     # finish: rewind when possible, un-protect, then alternate download turns and draining reads until everything
     # must have come through
     physical = audio + (audio // meta) * 17 if meta else audio
@@ -1980,7 +2037,8 @@ def run(ctx):
         "hand-written model coq/C17/Model.v of pyatv/support/buffer.py and of the wrappers in "
         "pyatv/protocols/raop/audio_source.py, tied by the differential run of this file evaluated in Coq by vm_compute "
         "(results, position, size, remaining and number of bytes taken from the source after every operation)",
-        "fake non-seekable file / StreamReader with scripted short reads; asyncio.run_coroutine_threadsafe replaced "
+        "fake non-seekable file / StreamReader with scripted short reads (the limit also varies between the calls of one "
+        "operation, which StreamReaderWrapper._read_from_source must absorb); asyncio.run_coroutine_threadsafe replaced "
         "inside audio_source by a synchronous runner (harness/c17.py), cross-checked on every run against a real "
         "asyncio.StreamReader served by an event loop in another thread",
         "PatchedIceCastClient driven without its thread: requests.get and time.sleep/monotonic inside audio_source are "
@@ -2024,6 +2082,21 @@ def replay(ctx, path):
         print("this replay file records a broken proof obligation / correspondence, not an input:")
         print(json.dumps(d.get("broken", d), indent=1)[:3000])
         return 1
+    if "ops" not in r["case"]:
+        # a finding of the real-TinyTag flow: re-run that flow
+        class Collect:
+            found = []
+
+            def violation(self, key, what, replay):
+                self.found.append((key, what))
+
+            def count(self, *a):
+                pass
+        c = Collect()
+        real_tinytag_check(c)
+        for key, what in c.found:
+            print(key, "|", what)
+        return 1 if any(k == d.get("key") for k, _ in c.found) else 0
     case = case_from_json(r["case"])
     try:
         ops, obs = run_any(case)
